@@ -84,6 +84,19 @@ type c13Run struct {
 	pendingRoot                *types.Hash
 	pendingHeight              uint64
 	readsBetweenFlushAndCommit int
+	// pendingLate: the Commit of the flushed block is issued only after further writes, snapshots and reverts of the
+	// next block ("for all interleavings of set/delete/get/snapshot/revert/flush/commit"); it always precedes the
+	// next flush, prefix queries and a reopen
+	pendingLate                 bool
+	writesBetweenFlushAndCommit int
+}
+
+func (r *c13Run) commitPendingUnlessLate() {
+	if r.pendingRoot != nil && r.pendingLate {
+		r.writesBetweenFlushAndCommit++
+		return
+	}
+	r.commitPending()
 }
 
 func (r *c13Run) commitPending() {
@@ -214,7 +227,7 @@ func c13Property(t *rapid.T) {
 
 	t.Repeat(map[string]func(*rapid.T){
 		"set": func(t *rapid.T) {
-			r.commitPending()
+			r.commitPendingUnlessLate()
 			a, k, v := drawAcct(), drawKey(), drawVal()
 			r.logf("SetState(%d,%q,%q)", a, k, v)
 			r.l.SetState(c13Addrs[a], []byte(k), v, nil)
@@ -222,7 +235,7 @@ func c13Property(t *rapid.T) {
 			setLayer(a, k, "dirty")
 		},
 		"delete": func(t *rapid.T) {
-			r.commitPending()
+			r.commitPendingUnlessLate()
 			a, k := drawAcct(), drawKey()
 			r.logf("SetState(%d,%q,nil)  // delete", a, k)
 			r.l.SetState(c13Addrs[a], []byte(k), nil, nil)
@@ -230,7 +243,7 @@ func c13Property(t *rapid.T) {
 			setLayer(a, k, "dirty")
 		},
 		"add": func(t *rapid.T) {
-			r.commitPending()
+			r.commitPendingUnlessLate()
 			a, k, v := drawAcct(), drawKey(), drawVal()
 			r.logf("AddState(%d,%q,%q)  // non-journaled, depth=%d", a, k, v, len(r.snaps))
 			r.l.AddState(c13Addrs[a], []byte(k), v)
@@ -249,7 +262,7 @@ func c13Property(t *rapid.T) {
 			checkKey(a, k)
 		},
 		"balance": func(t *rapid.T) {
-			r.commitPending()
+			r.commitPendingUnlessLate()
 			a := drawAcct()
 			v := big.NewInt(int64(rapid.IntRange(0, 1000).Draw(t, "bal")))
 			bl, relative := interface{}(r.l).(balanceAdjuster)
@@ -283,7 +296,7 @@ func c13Property(t *rapid.T) {
 			r.cur[a].balance = new(big.Int)
 		},
 		"nonce": func(t *rapid.T) {
-			r.commitPending()
+			r.commitPendingUnlessLate()
 			a := drawAcct()
 			v := uint64(rapid.IntRange(0, 50).Draw(t, "nonce"))
 			r.logf("SetNonce(%d,%d)", a, v)
@@ -291,7 +304,7 @@ func c13Property(t *rapid.T) {
 			r.cur[a].nonce = v
 		},
 		"code": func(t *rapid.T) {
-			r.commitPending()
+			r.commitPendingUnlessLate()
 			a := drawAcct()
 			v := rapid.SliceOfN(rapid.Byte(), 1, 8).Draw(t, "code")
 			r.logf("SetCode(%d,%x)", a, v)
@@ -299,14 +312,20 @@ func c13Property(t *rapid.T) {
 			r.cur[a].code = v
 		},
 		"query": func(t *rapid.T) {
-			r.commitPending()
+			// KF-C13-query-between-flush-and-commit: a prefix query issued between FlushDirtyData and Commit reads the
+			// database rows of the previous commit (single keys are served by the account cache). While the finding is
+			// listed as open the pending Commit is issued first (counted); otherwise the query runs right here.
+			if r.pendingRoot != nil && sim.KFOpen("KF-C13-query-between-flush-and-commit") {
+				sim.StatsFor("C13").KnownFinding("KF-C13-query-between-flush-and-commit", "Commit issued before a prefix query that followed FlushDirtyData")
+				r.commitPending()
+			}
 			a := drawAcct()
 			p := rapid.SampledFrom(c13Prefixes).Draw(t, "prefix")
 			r.logf("QueryByPrefix(%d,%q)", a, p)
 			checkQuery(a, p)
 		},
 		"snapshot": func(t *rapid.T) {
-			r.commitPending()
+			r.commitPendingUnlessLate()
 			if len(r.snaps) >= 4 {
 				t.Skip("enough snapshots")
 			}
@@ -315,7 +334,7 @@ func c13Property(t *rapid.T) {
 			r.snaps = append(r.snaps, c13Snap{id: id, state: r.cur.clone()})
 		},
 		"revert": func(t *rapid.T) {
-			r.commitPending()
+			r.commitPendingUnlessLate()
 			if len(r.snaps) == 0 {
 				t.Skip("no live snapshot")
 			}
@@ -335,7 +354,7 @@ func c13Property(t *rapid.T) {
 			}
 		},
 		"txBoundary": func(t *rapid.T) {
-			r.commitPending()
+			r.commitPendingUnlessLate()
 			r.logf("Finalise(true)  // transaction boundary")
 			r.l.Finalise(true)
 			r.snaps = nil
@@ -361,12 +380,19 @@ func c13Property(t *rapid.T) {
 				// must already see the block's values (they are served by the account cache)
 				r.logf("FlushDirtyData(%d)  // block boundary, Commit follows after the next reads", r.height)
 				r.pendingAccounts, r.pendingRoot, r.pendingHeight = accounts, root, r.height
+				r.pendingLate = rapid.Bool().Draw(t, "commitAfterWritesOfNextBlock")
 				return
 			}
 			r.logf("FlushDirtyData+Commit(%d)  // block boundary", r.height)
 			if err := r.l.Commit(r.height, accounts, root); err != nil {
 				r.fail("Commit(%d) failed: %v", r.height, err)
 			}
+		},
+		"commit": func(t *rapid.T) {
+			if r.pendingRoot == nil {
+				t.Skip("no flushed block waiting for its commit")
+			}
+			r.commitPending()
 		},
 		"reopen": func(t *rapid.T) {
 			r.commitPending()
@@ -428,6 +454,9 @@ func c13Property(t *rapid.T) {
 	}
 	if r.readsBetweenFlushAndCommit > 0 {
 		classes = append(classes, "read-between-flush-and-commit")
+	}
+	if r.writesBetweenFlushAndCommit > 0 {
+		classes = append(classes, "writes-or-reverts-between-flush-and-commit")
 	}
 	if len(r.poisoned) > 0 {
 		classes = append(classes, "addstate-reverted(unspecified)")
